@@ -1,15 +1,24 @@
 PROP = {
     "claim": "Proof: decoder lengths, the undefined-opcode set and the block-terminator predicate are equal to the SM83 tables for all 512 "
-             "encodings and every operand byte (kernel-checked against the decoder table regenerated from the source on every run); control "
-             "instructions are compared three ways (implementation / model / SM83 spec) at every region boundary PC, wrap-around SP and "
+             "encodings and every operand byte (kernel-checked against the decoder table regenerated from the source on every run); and the "
+             "whole-instruction refinement (Props/C06.lean control_refines, from Proofs/Sm83Main.lean) gives for every defined encoding, "
+             "operand, register/flag value and bus behaviour: the new PC (PC+length or the JP/JR/CALL/RET/RETI/RST/JP HL target), SP, the "
+             "bytes written/read at the stack addresses (push_bytes / pop_bytes: high byte at SP-1 then low byte at SP-2; low at SP, high at "
+             "SP+1; all mod 65536), the status for HALT/STOP/DI/EI/RETI and the SM83 machine-cycle count of the taken and of the not-taken "
+             "path (cycles_match). interp_len: every non-terminating instruction advances PC by the SM83 encoded length mod 65536. "
+             "undefined_invalid / invalid_exact: exactly the eleven undefined opcodes decode to Op::Invalid and make run_op panic. Control "
+             "instructions are also compared three ways (implementation / model / SM83 spec) at every region boundary PC, wrap-around SP and "
              "all 256 displacements, including instructions that straddle region ends.",
-    "note": "Trusted: Lean kernel, gen_decoder.py / gen_ops.py translators (cross-checked against the running decode()), harness/driver. "
-            "Whole-instruction refinement of the control ops is in Props/C05+C06 as it lands; until then the 3-way correspondence carries them.",
-    "technique": "Lean 4 kernel-checked table equalities over the regenerated decoder + three-way differential on boundary PCs/SPs",
+    "note": "Trusted: Lean kernel, gen_decoder.py / gen_ops.py translators (cross-checked against the running decode()), harness/driver.",
+    "technique": "Lean 4 kernel-checked table equalities over the regenerated decoder + per-opcode refinement proofs + three-way "
+                 "differential on boundary PCs/SPs",
     "gen": ["gen_decoder.py", "gen_ops.py"],
     "streams": [{"name": "c06", "shards": {"quick": 2, "thorough": 16}}],
-    "modules": ["GbVerif.Model.Interp", "GbVerif.Model.Cpu", "GbVerif.Spec.SM83", "GbVerif.Proofs.Enum"],
+    "modules": ["GbVerif.Model.Interp", "GbVerif.Model.Cpu", "GbVerif.Model.Op", "GbVerif.Spec.SM83", "GbVerif.Proofs.Enum", "GbVerif.Proofs.Sm83Bits", "GbVerif.Proofs.Sm83Abs", "GbVerif.Proofs.Sm83Alu", "GbVerif.Proofs.Sm83Rot", "GbVerif.Proofs.Sm83Misc", "GbVerif.Proofs.Sm83Rel", "GbVerif.Proofs.Sm83Cls1", "GbVerif.Proofs.Sm83Cls2", "GbVerif.Proofs.Sm83Cls3", "GbVerif.Proofs.Sm83Leaf", "GbVerif.Proofs.Sm83Main0", "GbVerif.Proofs.Sm83Main1", "GbVerif.Proofs.Sm83Main2", "GbVerif.Proofs.Sm83Main3", "GbVerif.Proofs.Sm83Main4", "GbVerif.Proofs.Sm83Main5", "GbVerif.Proofs.Sm83Main6", "GbVerif.Proofs.Sm83Main7", "GbVerif.Proofs.Sm83MainCB0", "GbVerif.Proofs.Sm83MainCB1", "GbVerif.Proofs.Sm83MainCB2", "GbVerif.Proofs.Sm83MainCB3", "GbVerif.Proofs.Sm83MainCB4", "GbVerif.Proofs.Sm83MainCB5", "GbVerif.Proofs.Sm83MainCB6", "GbVerif.Proofs.Sm83MainCB7", "GbVerif.Proofs.Sm83Main", "GbVerif.Proofs.InterpLen"],
     "rule": "all 256 first bytes (incl. the 11 undefined) x 22 boundary PCs (region edges, 0x0000, 0xFFFE, straddling 0x3FFF/0x7FFF/0xCFFF) x "
             "boundary SPs; 33 control opcodes x all 256 displacement/target bytes x both placements",
-    "assumptions": [],
+    "assumptions": ["theorem hypotheses WF r (pairs < 65536, F low nibble zero; preserved by every instruction, C05.regs_wf) and ByteBus "
+                    "(bus reads return bytes)",
+                    "the theorems are about the Lean model of run_op / run_next_op minus the fetch; the fetch (get_executable_memory_slice) "
+                    "and the tie to the Rust code are covered by the three-way correspondence stream"],
 }
